@@ -12,16 +12,20 @@
      verifier.getVerificationPlugin       = the first stage of verify_plan (strings.TrimSpace
                                             = all_space on every byte string), oracle
                                             extractCriticalStringExtendedAttribute
+     verifier.extractCriticalStringExtendedAttribute = vattr_of (the oracle's answer), no hypothesis
      verifier.getVerificationPluginMinVersion : direct characterisation
+     dir.sysFS.SysPath                    = Join (root :: items)   (oracle filepath.Join)
+     plugin.CLIManager.Uninstall         = uninstall (spec for ALL oracle behaviours, footprint,
+                                            equivalence; oracles SysFS.SysPath, os.Stat, os.RemoveAll)
+     plugin.isExecutableFile              = stat + the 0100 bit (is_executable_file)
 
    Oracles (Section variables of C16_Gen.v) are universally quantified and
    constrained by explicit hypotheses ("the oracle answers like the model of it").
    Library facts that do not mention the generated file are in
-   theories/C16_GenProofs.v. CLIManager.Get / Uninstall / List, parsePluginFromDir
-   and dir.sysFS.SysPath are outside the translator (docs/audit/C16.md, section
-   GoLite): the composition of the translated pieces into [get] is stated below
-   (C16_gen_Get_composition), the glue itself is tied to the code by the
-   correspondence harness only. *)
+   theories/C16_GenProofs.v. CLIManager.Get (interface result type), List and
+   parsePluginFromDir (WalkDir) are outside the translator (docs/audit/C16.md,
+   section GoLite): the composition of the translated pieces into [get] is stated
+   below (C16_gen_Get_composition). *)
 From Coq Require Import List Bool String Ascii NArith ZArith Lia.
 From NV Require Import Base GoLib C16_Path C16_Model C16_Proofs C16_Audit C16_GenProofs C16_Gen.
 Import ListNotations.
@@ -581,6 +585,10 @@ Proof.
     destruct (Z.eqb_spec 6 n) as [<-|]; [rewrite T; reflexivity|apply andb_false_r].
 Qed.
 
+Lemma perm_bit_0100' m :
+  negb (Z.eqb (Z.land 64 (gen_fs_FileMode_Perm m)) 0) = Z.testbit m 6.
+Proof. rewrite Z.land_comm. apply perm_bit_0100. Qed.
+
 Theorem C16_gen_isExecutableFile_equiv :
   forall FI Stat Mode notexist w,
     lib_errors_distinct notexist -> mode_agrees FI Stat Mode notexist w ->
@@ -598,7 +606,7 @@ Proof.
   - destruct Hm as [fi [Hs Hr]]. rewrite Hs. cbn [GoLib.is_none negb]. rewrite Hr. cbn [negb fst snd].
     rewrite (errc_lib_leaf ne Hd plugin_ErrNotRegularFile) by (vm_compute; reflexivity). reflexivity.
   - destruct Hm as [fi [Hs [Hr Hx]]]. rewrite Hs. cbn [GoLib.is_none negb]. rewrite Hr. cbn [negb fst snd].
-    rewrite perm_bit_0100, Hx. reflexivity.
+    rewrite ?perm_bit_0100, ?perm_bit_0100', Hx. reflexivity.
 Qed.
 Print Assumptions C16_gen_isExecutableFile_equiv.
 
